@@ -33,6 +33,11 @@ CHECKS = {
    note="Trusted: Coq kernel/vm_compute + primitive floats; Model/Corr.v, Lib/PySem.v, Model/Control.v, Model/PT.v, Model/SuperOps.v; Python harness. Not covered: bath_dynamics.py (no executable model); empty selections are treated as 'nothing requested'.",
    technique="Coq proof (lists/Z arithmetic, lia/nia) + exact integer differential correspondence, exhaustive over small specification grids",
    design="3/C07"),
+ "C14": dict(
+   text="Theorems (Coq, arbitrary opaque deterministic back-end): any sequence of compute targets equals one compute to the furthest target, reached targets change nothing, labels are 0..t (split_eq_single, reached_target_noop, labels_complete, induction over the call list); fixed-end methods are idempotent (fixed_end_idempotent); a restarted chain computation continues with the same step numbers and network (restart_eq_continue); after a user callable raises the object is in the state of a successful computation to an earlier step and a retry gives the failure-free result (failure_atomic), with refutations for counter-first, late evaluation (mean-field, still in the code: known finding) and repeat-advances. Tied to /repo by running every history of 1-3 targets on real Tempo / MeanFieldTempo / PtTebd objects, repeated compute/get on PtTempo and GibbsTempo, PtTebd restart, and a transient failure at every evaluation index of the user callables.",
+   note="Trusted: Coq kernel/vm_compute; Model/History.v; Python harness; determinism of the back-end up to 1e-7 between separate runs. Known finding: MeanFieldTempo failure in a Runge-Kutta stage.",
+   technique="Coq proof: state machine over an opaque back-end, induction over call histories + exhaustive small-history and fault enumeration on the implementation",
+   design="3/C14"),
 }
 
 NOT_YET = {}
